@@ -19,6 +19,7 @@ CONSTANTS
  MaxExtra <- MC_MaxExtra
  ListOrders <- MC_ListOrders
  EMIT <- MC_EMIT
+ BatchAtEnd <- MC_BatchAtEnd
 INIT Init
 NEXT Next
 CHECK_DEADLOCK FALSE
